@@ -272,3 +272,131 @@ const smtPrelude = `(define-fun gdiv ((a Int) (b Int)) Int (ite (>= a 0) (ite (>
 (declare-fun typeof_ (Int) Int)
 (declare-fun unwraps_ (Int Int) Bool)
 `
+
+// ---- quantifier re-indexing
+//
+// A quantified formula over a relative index j whose body reads memory at
+// (+ off j) is rewritten by the change of variables k = off + j, so that the
+// array reads are indexed by the bound variable itself:
+//   forall j. lo <= j < hi => P[(+ off j)]   ==>   forall k. lo+off <= k < hi+off => P[k]
+// The two are equivalent; the second is in the array property fragment and is
+// instantiated by E-matching on (select A k), where the first needs the solver
+// to invert the addition.
+
+func isTokChar(c byte) bool {
+	return c == '!' || c == '_' || c == '.' || c == '@' || c == '$' || c == '-' || (c >= '0' && c <= '9') || (c >= 'a' && c <= 'z') || (c >= 'A' && c <= 'Z')
+}
+
+// tokenOccurrences returns the start offsets of whole-token occurrences of v in s.
+func tokenOccurrences(s, v string) []int {
+	var out []int
+	for i := 0; ; {
+		k := strings.Index(s[i:], v)
+		if k < 0 {
+			return out
+		}
+		p := i + k
+		e := p + len(v)
+		if (p == 0 || !isTokChar(s[p-1])) && (e == len(s) || !isTokChar(s[e])) {
+			out = append(out, p)
+		}
+		i = e
+	}
+}
+
+// reindexOffset finds the offset OFF that occurs most often as (+ OFF v) in s.
+func reindexOffset(s, v string) string {
+	count := map[string]int{}
+	var order []string
+	for _, p := range tokenOccurrences(s, v) {
+		e := p + len(v)
+		if e >= len(s) || s[e] != ')' || p < 1 || s[p-1] != ' ' {
+			continue
+		}
+		// walk back to the matching open paren
+		depth := 0
+		start := -1
+		for q := e; q >= 0; q-- {
+			if s[q] == ')' {
+				depth++
+			} else if s[q] == '(' {
+				depth--
+				if depth == 0 {
+					start = q
+					break
+				}
+			}
+		}
+		if start < 0 || !strings.HasPrefix(s[start:], "(+ ") {
+			continue
+		}
+		off := s[start+3 : p-1]
+		if off == "" || len(tokenOccurrences(off, v)) > 0 {
+			continue
+		}
+		// exactly one balanced operand
+		d, ok := 0, true
+		for q := 0; q < len(off); q++ {
+			switch off[q] {
+			case '(':
+				d++
+			case ')':
+				d--
+			case ' ':
+				if d == 0 {
+					ok = false
+				}
+			}
+			if d < 0 {
+				ok = false
+			}
+		}
+		if !ok || d != 0 {
+			continue
+		}
+		if count[off] == 0 {
+			order = append(order, off)
+		}
+		count[off]++
+	}
+	best := ""
+	for _, o := range order {
+		if best == "" || count[o] > count[best] {
+			best = o
+		}
+	}
+	return best
+}
+
+func replaceToken(s, v, with string) string {
+	occ := tokenOccurrences(s, v)
+	if len(occ) == 0 {
+		return s
+	}
+	var b strings.Builder
+	last := 0
+	for _, p := range occ {
+		b.WriteString(s[last:p])
+		b.WriteString(with)
+		last = p + len(v)
+	}
+	b.WriteString(s[last:])
+	return b.String()
+}
+
+// reindex performs the change of variables on the parts of one quantified
+// formula (bounds lo <= v < hi and any number of body parts).
+func reindex(v, lo, hi string, parts ...string) (string, string, []string) {
+	off := reindexOffset(strings.Join(parts, "\x00"), v)
+	if off == "" {
+		return lo, hi, parts
+	}
+	const ph = "\x01K\x01"
+	out := make([]string, len(parts))
+	for i, p := range parts {
+		p = strings.ReplaceAll(p, "(+ "+off+" "+v+")", ph)
+		p = replaceToken(p, v, "(- "+v+" "+off+")")
+		out[i] = strings.ReplaceAll(p, ph, v)
+	}
+	return tAdd(lo, off), tAdd(hi, off), out
+}
